@@ -14,11 +14,29 @@ PARTIAL = ["see the theorem list in the evidence for the packet kinds whose roun
 USES_GEN = True
 
 
+def boundary_props():
+    """v5 packets whose property block length crosses the 1/2-byte (and 2/3-byte) var-int boundary: the inner
+    Property Length is computed back from the total size (var_int_len_from_size), a separate code path"""
+    out = []
+    lens = list(range(118, 134)) + list(range(16374, 16390))
+    for L in lens:
+        body = ",".join(["97"] * L)
+        out.append("0,0;1,4,1,128,0,1,%d,%s" % (L, body))                       # PUBACK with a reason string
+        out.append("0,0;1,14,129,0,0,1,%d,%s,0" % (L, body))                    # DISCONNECT with a reason string
+        out.append("0,0;2,1,0,0,0,0,1,116,0,0,0,0,1,%d,%s,0,0,0,0" % (L, body))  # PUBLISH with a content type
+        half = L // 2
+        out.append("0,0;1,4,1,0,1,%d,%s,%d,%s,0" % (half, ",".join(["107"] * half), L - half,
+                                                   ",".join(["118"] * (L - half))))  # PUBACK, one user property
+    return out
+
+
 def parts(tier, rng):
     n3 = cc.sized(tier, 60, 800)
     n5 = cc.sized(tier, 40, 500)
     return [
         cc.Enc5Part("v5-encode-valid", "enc5", G5.enc5_valid(rng, n5 * 8), has_oracle=False),
+        cc.Enc5Part("v5-property-length-boundaries", "enc5", boundary_props(), has_oracle=False,
+                    rule="property blocks of 118..133 and 16374..16389 bytes (var-int width boundaries)"),
         cc.EncPart("v3-encode-valid", "enc3", G3.gen_enc_valid(rng, n3), has_oracle=False),
         cc.Dec5Part("v5-decode-spec-encoded", "dec5", G5.dec5_valid(rng, n5 * 6), has_oracle=False),
         cc.Dec3Part("v3-decode-spec-encoded", "dec3", G3.gen_dec_valid(rng, n3), has_oracle=False),
